@@ -5,7 +5,9 @@
 id=$1; shift
 d=$(mktemp -d /tmp/seedrun_XXXXXX)
 cp -r /repo/pydra "$d/pydra"
-if ! (cd "$d" && patch -p1 -s < /verif/seeded/$id/patch.diff); then echo "PATCH-FAILED $id"; rm -rf "$d"; exit 2; fi
+pf=/verif/seeded/$id/patch.diff
+[ -f /verif/seeded/$id/patch_rebased.diff ] && pf=/verif/seeded/$id/patch_rebased.diff   # the tree moved under the seed (a later fix: commit)
+if ! (cd "$d" && patch -p1 -s < $pf); then echo "PATCH-FAILED $id"; rm -rf "$d"; exit 2; fi
 for c in "$@"; do
   out=$(cd /verif && VERIF_REPO="$d" VERIF_EVIDENCE_DIR="$d/evidence" VERIF_REPLAYS_DIR="$d/replays" ./check "$c" --tier ${TIER:-quick} 2>&1)
   rc=$?
